@@ -19,22 +19,48 @@ SHARDS = {'quick': 4, 'thorough': 16, 'quick_timeout': 1200, 'thorough_timeout':
 LD = np.longdouble
 
 
-def reference_2d(logm, k, logf, w, lo, hi):
+def limit_penalty(valid, logf, conf, pred):
+    """sum of -2 ln(1-confidence) over the limits the prediction lies on the forbidden side of; pred [..., f]"""
+    pen = np.zeros(np.shape(pred)[:-1])
+    near = np.zeros(np.shape(pred)[:-1], bool)
+    for j, v in enumerate(valid):
+        if v not in (2, 3):
+            continue
+        dlt = np.asarray(pred[..., j], float) - float(logf[j])
+        bad = dlt < 0 if v == 2 else dlt > 0
+        pen = pen + np.where(bad, O.penalty(float(conf[j])), 0.0)
+        near |= np.abs(dlt) < 1e-6
+    return pen, near
+
+
+def reference_2d(logm, k, logf, w, lo, hi, valid=None, conf=None):
+    """per model (A_V, scale, chi^2) with the limit penalties of the statement added; near: a prediction within 1e-6 dex of a limit"""
     r = np.asarray(logf, LD)[None, :] - np.asarray(logm, LD)
     res = [O.fit2d(r[m], w, k, lo, hi) for m in range(len(logm))]
-    return np.array([x.av for x in res]), np.array([x.sc for x in res]), np.array([x.obj for x in res])
+    a, s_, c = np.array([x.av for x in res]), np.array([x.sc for x in res]), np.array([x.obj for x in res])
+    near = np.zeros(len(c), bool)
+    if valid is not None:
+        pred = np.asarray(logm, float) + a[:, None] * np.asarray(k, float)[None, :] - 2.0 * s_[:, None]
+        pen, near = limit_penalty(valid, logf, conf, pred)
+        c = c + pen
+    return a, s_, c, near
 
 
-def reference_3d(logm, k, logf, w, lo, hi):
-    """logm [m, d, f] -> per model best (av, j, chi2)"""
+def reference_3d(logm, k, logf, w, lo, hi, valid=None, conf=None):
+    """logm [m, d, f] -> per model best (av, j, chi2) with the limit penalties added at every distance"""
     wL = np.asarray(w, LD)
     kL = np.asarray(k, LD)
     r = np.asarray(logf, LD)[None, None, :] - np.asarray(logm, LD)
     a = np.clip(np.sum(wL * r * kL, axis=2) / np.sum(wL * kL * kL), LD(lo), LD(hi))
     chi = np.asarray(np.sum(wL * (r - a[:, :, None] * kL) ** 2, axis=2), float)
+    near = np.zeros(chi.shape, bool)
+    if valid is not None:
+        pred = np.asarray(logm, float) + np.asarray(a, float)[:, :, None] * np.asarray(k, float)[None, None, :]
+        pen, near = limit_penalty(valid, logf, conf, pred)
+        chi = chi + pen
     j = np.argmin(chi, axis=1)
     rows = np.arange(len(chi))
-    return np.asarray(a[rows, j], float), j, chi[rows, j], chi
+    return np.asarray(a[rows, j], float), j, chi[rows, j], chi, near.any(axis=1)
 
 
 def run(ctx):
@@ -159,14 +185,14 @@ def run(ctx):
                 ctx.regime('plant:with-unused-or-limit-band')
             logf, sig, w = O.transform(valid, flux, err)
             if mode == '2d':
-                a_ref, s_ref, chi_ref = reference_2d(logm, k, logf, w, lo, hi)
+                a_ref, s_ref, chi_ref, near_lim = reference_2d(logm, k, logf, w, lo, hi, valid=valid, conf=err)
                 chi_all, jref = None, None
             else:
-                a_ref, jref, chi_ref, chi_all = reference_3d(logm, k, logf, w, lo, hi)
+                a_ref, jref, chi_ref, chi_all, near_lim = reference_3d(logm, k, logf, w, lo, hi, valid=valid, conf=err)
                 s_ref = np.log10(dist)[jref]
             o = np.argsort(chi_ref)
             margin = 1e-6 * (1 + chi_ref[o[0]]) + 1e-9
-            degenerate = o[0] != m0 or (n_m > 1 and chi_ref[o[1]] - chi_ref[o[0]] < 10 * margin + 1e-3)
+            degenerate = o[0] != m0 or (n_m > 1 and chi_ref[o[1]] - chi_ref[o[0]] < 10 * margin + 1e-3) or bool(np.any(near_lim))
             if not degenerate and mode == '3d':
                 srt = np.sort(chi_all[m0])       # distance ties for the planted model are free: regenerate
                 degenerate = len(srt) > 1 and srt[1] - srt[0] < 1e-9 * (1 + srt[0])
